@@ -535,6 +535,8 @@ fn run_session(rng: &mut Rng, si: u64, n_ops: u64, r: &mut Reports) {
             7 => Some(11),
             33 => Some(11),
             62 => Some(11),
+            18 => Some(12),
+            46 => Some(12),
             48 => Some(8),
             37 => Some(6),
             44 => Some(1),
@@ -558,6 +560,7 @@ fn run_session(rng: &mut Rng, si: u64, n_ops: u64, r: &mut Reports) {
                 9 => s.op_uncle_race(r),
                 10 => s.op_window_race(r),
                 11 => s.op_storm(r),
+                12 => s.op_submit_race(r),
                 _ => s.op_pool_pressure(r),
             };
             if !ok {
@@ -2691,6 +2694,82 @@ impl Sess {
         let ok = self.after_tip_change_with(&pre, post, old_tip, r);
         self.cur_op = "";
         ok
+    }
+
+
+    /// C11 (two submissions racing for one input): B spends [g2, g1] and is parked (gate at
+    /// `pool::before_submit_lock`: verified, not yet inserted); A spends g1 and is accepted; B is
+    /// released. Whatever the pool decides about B (refusal, or replacement of A when RBF allows
+    /// it), its maps must stay consistent - judged by the ordinary dump recomputation - and the
+    /// answer must agree with the membership.
+    fn op_submit_race(&mut self, r: &mut Reports) -> bool {
+        let Some(pre) = self.quiesce() else { return false };
+        let tip_n = self.tg.rc.get(&self.n_tip()).number;
+        let cells = self.chain_cells(&pre, tip_n);
+        if cells.len() < 2 {
+            return true;
+        }
+        let (g1, g2) = (cells[0].clone(), cells[1].clone());
+        self.tg.keep.insert(op_key(&g1.0));
+        self.tg.keep.insert(op_key(&g2.0));
+        let rate = self.min_fee_rate + 300 + self.xrng.below(1_500);
+        let Some(a) = self.simple_tx(std::slice::from_ref(&g1), rate, 0, &[], 4) else { return true };
+        let b_rate = if self.xrng.bool() { rate + 200 } else { rate + self.min_rbf_rate + 4_000 };
+        let Some(b) = self.simple_tx(&[g2.clone(), g1.clone()], b_rate, 0, &[], 6) else { return true };
+        self.known.insert(b.proposal_short_id(), b.clone());
+        r.c11.count("ops.scenario_submit_race");
+        hooks::arm_gate("pool::before_submit_lock");
+        let ctl = self.n.shared.tx_pool_controller().clone();
+        let b_clone = b.clone();
+        let th = std::thread::Builder::new().name("verif-race-submit".into()).spawn(move || ctl.submit_local_tx(b_clone)).expect("spawn");
+        let held = {
+            let t0 = Instant::now();
+            loop {
+                if hooks::wait_gate_held(Duration::from_millis(5)) {
+                    break true;
+                }
+                if th.is_finished() || t0.elapsed() > Duration::from_secs(20) {
+                    break hooks::gate_is_holding();
+                }
+            }
+        };
+        // A goes through the ordinary submission path (and its checks) while B is parked
+        let a_ok = if held { self.submit_tx(r, &a, &pre, " (racing: the other spender of its input is parked before the pool lock)") } else { Some(false) };
+        let released = if held { hooks::release_gate() } else { hooks::release_gate(); false };
+        let res = th.join();
+        let Some(a_ok) = a_ok else { return false };
+        let res = match res {
+            Ok(Ok(x)) => x.map(|_| ()).map_err(|e| e.to_string()),
+            _ => {
+                r.c11.inconclusive("harness: submit_local_tx failed in a submission race");
+                return false;
+            }
+        };
+        if !held || !released {
+            r.c11.count("obs.submit_race.not_parked");
+            return true;
+        }
+        r.c11.count("obs.submit_race.parked_across_a_conflicting_submission");
+        if a_ok {
+            r.c11.count("obs.submit_race.conflicting_submission_accepted_meanwhile");
+        }
+        let Some(post) = self.quiesce() else {
+            r.c11.inconclusive("watchdog: pool did not reach quiescence in 30 s");
+            return false;
+        };
+        let in_pool = post.entries.iter().any(|e| e.id == b.proposal_short_id());
+        self.ops.push(format!("submit (parked across the acceptance of a conflicting transaction) {} -> {}", hx(&h(&b.hash())), match &res { Ok(_) => "ok".to_string(), Err(e) => e.chars().take(70).collect() }));
+        r.c11.count(if res.is_ok() { "ops.submit_ok" } else { "ops.submit_rejected" });
+        r.c11.eval();
+        if res.is_ok() != in_pool {
+            r.c11.violation(
+                if res.is_ok() { "submit.accepted_tx_not_in_pool" } else { "submit.rejected_tx_in_pool" },
+                format!("submit_local_tx returned {:?} but pool membership is {}", res, in_pool),
+                self.witness(json!({"tx": vbase::hex(b.hash().as_slice()), "parked_across_a_conflicting_submission": true})),
+            );
+        }
+        self.check_pool(&post, r);
+        true
     }
 
     /// C11: submissions until the pool's size limit evicts (or refuses) something; only in
